@@ -296,9 +296,118 @@ def check_relay(case):
     return Result(vio or None, classes, changing and len(hs) >= 2)
 
 
+# ---- ball_ending / mode_game_stopping with a game mode that is just starting ----------------------------------------
+D = [0, 5, 20, 50]
+case_ballend = st.tuples(st.sampled_from(D), st.sampled_from(D), st.sampled_from([0, 1, 5, 15, 20, 30, 45, 50, 70]),
+                         st.sampled_from([0, 5, 20]), st.sampled_from(["call", "event"]),
+                         st.sampled_from(["drain", "drain", "end_game"]), st.booleans()).map(
+    lambda t: {"d_start": t[0], "d_ball": t[1], "x": t[2], "d_stop": t[3], "start_how": t[4], "ender": t[5],
+               "align": t[6]})
+
+
+def check_ballend(case):
+    """The game's ball_ending (or mode_game_stopping) queue event is posted while a game mode is between 'starting'
+    and 'started'; every wait is cleared after its generated delay. The queue event must complete: the ball ends
+    (ball_ended, then the next ball or the end of the game) and the game mode stops."""
+    case = dict(case)
+    if case["align"] and case["d_start"] >= case["d_ball"]:
+        case["x"] = case["d_start"] - case["d_ball"]      # both waits are cleared at the same instant
+    vio = []
+    classes = set()
+    with Rig("modes7", base="fakegame") as rig:
+        m = rig.machine
+        ev = m.events
+        me = m.modes["me"]
+
+        def _add_ball(**kwargs):
+            m.playfield.balls += 1
+            m.playfield.available_balls += 1
+        m.playfield.add_ball = _add_ball
+        m.ball_controller.num_balls_known = 3
+        log = []
+
+        def t():
+            return round(rig.now * 1000, 3)
+        for n in ("ball_started", "ball_ending", "ball_ended", "game_ended", "mode_me_will_start", "mode_me_starting",
+                  "mode_me_started", "mode_me_will_stop", "mode_me_stopping", "mode_me_stopped", "mode_game_stopping",
+                  "mode_game_stopped"):
+            ev.add_handler(n, functools.partial(lambda name, **kwargs: log.append((name, t())), n), priority=2000)
+        pending = [0]
+
+        def mk_wait(delay):
+            def handler(queue, **kwargs):
+                queue.wait()
+                if delay == 0:
+                    queue.clear()
+                    return
+                pending[0] += 1
+
+                def clear():
+                    pending[0] -= 1
+                    queue.clear()
+                m.clock.loop.call_later(delay / 1000.0, clear)
+            return handler
+        m.switch_controller.process_switch("s_start", 1, logical=True)
+        rig.run_ready()
+        m.switch_controller.process_switch("s_start", 0, logical=True)
+        rig.advance(0.5)
+        if m.game is None or not any(e[0] == "ball_started" for e in log):
+            return Result(None, ["game did not start"], False, excluded="game did not start")
+        ev.add_handler("mode_me_starting", mk_wait(case["d_start"]), priority=5)
+        ev.add_handler("ball_ending", mk_wait(case["d_ball"]), priority=1000)
+        ev.add_handler("mode_game_stopping", mk_wait(case["d_ball"]), priority=1000)
+        ev.add_handler("mode_me_stopping", mk_wait(case["d_stop"]), priority=5)
+        mark = len(log)
+        if case["start_how"] == "call":
+            me.start()
+        else:
+            ev.post("start_me")
+        rig.advance(case["x"] / 1000.0)
+        if me.starting or (me.active and not any(e[0] == "mode_me_started" for e in log[mark:])):
+            classes.add("ball ends while the game mode is still starting")
+        if case["ender"] == "drain":
+            ev.post_relay("ball_drain", balls=m.game.balls_in_play)
+        else:
+            m.game.end_game()
+        m.playfield.balls = 0
+        m.playfield.available_balls = 0
+        rig.advance(0.3)
+        for _ in range(20):
+            if not pending[0]:
+                break
+            rig.advance(0.1)
+        rig.advance(2.0)
+        tail = log[mark:]
+        names = [e[0] for e in tail]
+        if case["ender"] == "drain":
+            if names.count("ball_ended") != 1:
+                vio.append(violation("ball-ending-never-completed", "ball_ending was posted with all waits cleared but "
+                                     "ball_ended was posted %d times within 2 s (events %r)" % (names.count("ball_ended"), tail)))
+            elif "ball_started" not in names[names.index("ball_ended"):] and "game_ended" not in names:
+                vio.append(violation("game-stalled-after-ball-end", "after ball_ended neither the next ball nor the end of "
+                                     "the game followed (events %r)" % (tail,)))
+        else:
+            if "game_ended" not in names or m.game is not None:
+                vio.append(violation("game-stopping-never-completed", "end_game: mode_game_stopping did not complete, "
+                                     "game_ended missing 2 s after all waits were cleared (events %r)" % (tail,)))
+        if me.active and not me.stopping:
+            # (a game mode that was still starting when the ball ended carries on into the next ball: observed, but
+            # outside what C02 states - only the completion of the queue events is asserted here)
+            classes.add("game mode still running after the ball ended")
+        if rig.exceptions and not vio:
+            vio.append(violation("loop-exception", "exception reached the loop: %s" % rig.exception_summaries()[:2]))
+        if "mode_me_will_start" in names:
+            classes.add("game mode started")
+        if case["align"] and case["d_start"] >= case["d_ball"]:
+            classes.add("both waits cleared at the same instant")
+    nontrivial = "ball ends while the game mode is still starting" in classes
+    return Result(vio or None, sorted(classes) or ["plain"], nontrivial)
+
+
 SUBCHECKS = [
     SubCheck("relay", lambda: case_relay, check_relay, quick=1500, thorough=40000, procs_quick=3),
     SubCheck("programs", lambda: evprog.program(queue=True).map(fix_program), check_programs, quick=2000, thorough=60000,
              procs_quick=8),
     SubCheck("modes", lambda: case_modes, check_modes, quick=600, thorough=10000, procs_quick=4),
+    SubCheck("ballend", lambda: case_ballend, check_ballend, quick=600, thorough=4000, procs_quick=4),
 ]
